@@ -2409,6 +2409,10 @@ start_return_value (GMarkupParseContext *context,
   nullable = find_attribute ("nullable", attribute_names, attribute_values);
   if (nullable && g_str_equal (nullable, "1"))
     param->nullable = TRUE;
+  /* older GIR files spell it allow-none */
+  nullable = find_attribute ("allow-none", attribute_names, attribute_values);
+  if (nullable && g_str_equal (nullable, "1"))
+    param->nullable = TRUE;
 
   switch (CURRENT_NODE (ctx)->type)
     {
